@@ -23,7 +23,7 @@ pub const FLOORS: &[&str] = &[
 ];
 
 pub const ALPHABET: &[char] = &['+', '-', '#', 'x', 'o', 'b', '0', '1', '7', '9', 'a', 'f', 'g', '^', 'r', '_'];
-const CHUNK: u64 = if cfg!(miri) { 64 } else { 2048 };
+const CHUNK: u64 = if cfg!(miri) { 16 } else { 2048 };
 
 fn count_strings(max_len: u32) -> u64 {
     (1..=max_len).map(|l| (ALPHABET.len() as u64).pow(l)).sum()
@@ -154,7 +154,8 @@ pub fn run(cfg: &Cfg, col: &mut Collector) {
     let max_len: u32 = if cfg.miri { 2 } else if cfg.thorough() { 5 } else { 4 };
     let n_strings = count_strings(max_len);
     let n_chunks = (n_strings + CHUNK - 1) / CHUNK;
-    let n_boundary = 1u64;
+    // natively one case checks every boundary token; under Miri eight cases check every 32nd token each
+    let (n_boundary, stride) = if cfg.miri { (8u64, 32u64) } else { (1u64, 1u64) };
     let n_names = cfg.n(40, 400, 1);
     let n_random = cfg.n(60, 2000, 1);
     let n_machine = cfg.n(60, 3000, 2);
@@ -164,7 +165,7 @@ pub fn run(cfg: &Cfg, col: &mut Collector) {
         if i < n_chunks {
             enum_chunk(i, max_len, n_strings)
         } else if i < n_chunks + n_boundary {
-            boundary_case(i)
+            boundary_case(i, i - n_chunks, stride)
         } else if i < n_chunks + n_boundary + n_names {
             names_case(seed, i)
         } else if i < n_chunks + n_boundary + n_names + n_random {
@@ -222,7 +223,7 @@ fn enum_chunk(chunk: u64, max_len: u32, n_strings: u64) -> CaseOut {
     out
 }
 
-fn boundary_case(case: u64) -> CaseOut {
+fn boundary_case(case: u64, part: u64, stride: u64) -> CaseOut {
     let mut out = CaseOut::new();
     let mut toks: Vec<String> = Vec::new();
     let magnitudes: &[i64] = &[
@@ -263,7 +264,10 @@ fn boundary_case(case: u64) -> CaseOut {
         }
     }
     let mut evals = 0;
-    for t in &toks {
+    for (ti, t) in toks.iter().enumerate() {
+        if ti as u64 % stride != part % stride {
+            continue;
+        }
         for (ctx, pre, post) in CONTEXTS {
             evals += 1;
             if let Some(cls) = check_line(&mut out, &format!("{}{}{}", pre, t, post), case) {
@@ -274,7 +278,7 @@ fn boundary_case(case: u64) -> CaseOut {
     }
     out.class("family:boundary");
     out.evals = evals;
-    out.nontrivial = Some(hash_bytes(b"boundary"));
+    out.nontrivial = Some(hash_bytes(b"boundary") ^ part);
     out.sample = Some(J::obj(vec![("boundary_tokens", J::A(toks.iter().take(12).map(J::s).collect())), ("tokens", J::I(toks.len() as i64))]));
     out
 }
